@@ -26,6 +26,14 @@ CHECKS = {
               "setter-or-observer calls on live objects compared with a fresh object built from the same values."),
         note="Trusted: engines/refmodels/gitobjects.py (any disagreement with C git is a harness error), git 2.39.5. Extra headers in non-git order and zones with minutes >= 60 are outside the canonical grammar (informational classes).",
     ),
+    "C02": dict(
+        engine="E4 enum", category="exploration",
+        technique="bounded-exhaustive enumeration of object selections x write configurations x index versions x hash algorithms; independent pack/idx parser and C git (index-pack --strict, verify-pack, show-index, pack-objects) as oracles",
+        text=("Every ordered selection of <=3 (thorough <=4) objects from pools engineered around the size-varint, OFS-distance and 64 KiB copy boundaries x 25 (40) write configurations over four write paths x idx v1/v2/v3 x SHA-1/SHA-256; "
+              "index-only cases at the 2^31/2^32 offset boundaries and fan-out corners; every delta forest on <=3 (4) versions built by the reference writer; packs from git pack-objects (depth to 50, thin, 64-bit idx). "
+              "Round trip by random access and iteration, recomputed trailers/CRCs/fan-out/large-offset table, git acceptance of every distinct dulwich-written pack."),
+        note="Trusted: engines/refmodels/packfile.py (validated against git verify-pack/show-index/index-pack), git 2.39.5; a vacuity guard requires every boundary shape to have occurred.",
+    ),
     "C03": dict(
         engine="E4 enum + E6 sandbox", category="exploration",
         technique="bounded-exhaustive enumeration of (base,target) pairs and of all byte strings as deltas, every encoder x decoder pairing (Python, Rust, C git), observed in rlimit-ed child processes",
@@ -33,6 +41,22 @@ CHECKS = {
               "opcode-covering alphabet x 3 bases plus structured mutations (varints of 1..11 bytes, declared sizes to 2^70, all 128 copy opcodes) as hostile deltas: result is the declared-size "
               "output made of base slices and inserts, or ApplyDeltaError; never a signal, panic, timeout or memory growth out of proportion."),
         note="Trusted: engines/refmodels/delta.py (git's patch-delta semantics), the sandbox attribution protocol (index published before each call), git 2.39.5. Rust crates rebuilt from the working tree.",
+    ),
+    "C04": dict(
+        engine="E5 mutfault + E6 sandbox + E2 faults", category="fault_enumeration",
+        technique="exhaustive single-fault mutation (every truncation, bit flip, byte substitution) and grammar-aware attacks of small artefacts through every ingestion/reading path in rlimit-ed workers; fault injection at every interposed call of an ingestion",
+        text=("All single-fault mutants and ~70 grammar-aware attack streams (counts, trailers, OFS/REF base redirections incl. cycles, zlib garbage, bombs) of packs, pack+idx pairs, loose objects, index, packed-refs, commit-graph, midx and bitmap files "
+              "through add_pack, add_thin_pack, add_pack_data, PackStreamReader/Copier (every 2-chunk split), receive-pack and the readers, on disk and memory stores, Rust and pure-Python builds: terminates within the watchdog and memory bound, ordinary error or "
+              "self-consistent data, and a failed ingestion leaves the store observably unchanged (live and reopened). An OSError at each of ~150 interposed calls of 7 ingestion scenarios must leave no trace either."),
+        note="Trusted: the sandbox attribution protocol, engines/packattack.py (no dulwich imports). Raw by-name reads that are not verified by dulwich are recorded as outcome classes, not violations (VERIF_C04_STRICT_RAW_READS=1 turns them on).",
+    ),
+    "C05": dict(
+        engine="E4 enum", category="exploration",
+        technique="exhaustive enumeration of commit DAGs x receiver downsets x want sets x transports x capability rows; recorded object graph as closure oracle; wire capture indexed by an independent pack parser",
+        text=("All DAGs with n<=3 (thorough n<=5) commits with tree assignments engineered for sharing and 6 tag decorations; every ancestor-closed subset as the receiver's state (under refs/heads or refs/remotes, optionally shallow or diverged), every non-empty want subset, hostile wants; "
+              "fetch/clone/push in-process, over dulwich TCP and WSGI servers, against C git upload-pack/receive-pack (v0 and v2) and with C git clients, capability rows varied where the code allows, depth None/1/2, two enumerated network timings. "
+              "Completeness, byte identity, containment of the captured pack in closure(wants) and in closure(advertised refs), shallow frontier; thorough: git fsck --connectivity-only."),
+        note="Trusted: the object graph recorded while histories are built (no store queries in the oracle), engines/refmodels/packfile.py, git 2.39.5; a failed or rejected transfer is an outcome class, not a violation.",
     ),
     "C06": dict(
         engine="E3 statespace + E1 sysched", category="model_checking",
@@ -123,6 +147,21 @@ CHECKS = {
         text=("All values of length <=4 (thorough <=5) over the 12 special characters, a full byte sweep, all section/subsection/key names over small alphabets, all "
               "set/add/remove/rewrite sequences <=3, judged on dulwich-write/dulwich-read, dulwich-write/git-read and git-write/dulwich-read."),
         note="Trusted: engines/refmodels/gitconfig.py (must agree with C git on every file used, else harness error), git 2.39.5 config parser.",
+    ),
+    "C17": dict(
+        engine="E3 statespace (engines/confine.py)", category="model_checking",
+        technique="explicit-state search over sequences of checkouts of adversarial trees through every entry point, with recursive snapshots of everything outside the work tree and of .git",
+        text=("Trees built from raw bytes over 21 adversarial names x 17 leaf kinds (odd modes, gitlinks, ten symlink targets) x directory nesting, four protectNTFS/HFS settings, through clone, checkout (plain/forced/paths), switch, reset hard/mixed/soft, "
+              "reset_index, stash push/pop, apply_patch, am, restore: every tree once through every entry point, plus BFS over sequences (depth 2-3) that re-use a name with a different kind and continue after failed checkouts. "
+              "Snapshot of the sandbox minus the work tree and of .git minus a bookkeeping allow-list identical before/after every transition; no unsafe path materialised (independent model cross-checked against git update-index)."),
+        note="Trusted: engines/refmodels/pathsafety.py (cross-checked against git on 248 paths per run); transitions run in forked children that drop privileges; Linux tmpfs path semantics only.",
+    ),
+    "C18": dict(
+        engine="E3 statespace", category="model_checking",
+        technique="exhaustive round-trip and branch-switch enumeration over trees, BFS over work-tree/index edit sequences with a three-dict model; git status / git write-tree as second oracle on every distinct state",
+        text=("Every tree of <=2 (thorough <=3) entries over 9 names (incl. non-UTF-8, quoting) x 8 kinds checked out two ways, re-staged and committed (same tree id, clean status); all ordered pairs inside slot universes for every kind transition "
+              "file/symlink/dir/absent; BFS to depth 2 (3) over 14 edit/stage/unstage operations from 8 start trees with status judged in both untracked modes through a live and a fresh Repo against the model and C git. Racy-git owned by a virtual mtime clock."),
+        note="Trusted: engines/refmodels/worktree.py (model vs git disagreement is a harness error); two known findings (mode/type-only changes invisible to status; stage/unstage D/F conflicts).",
     ),
     "C19": dict(
         engine="E4 enum", category="exploration",
